@@ -730,6 +730,8 @@ def check_operator_table_fold(run, tree, table):
             raise Unsupported("_binary_op called with %r" % (op,))
         order = "SO" if (lhs is state["self"] and rhs is state["other"]) else "OS" if (lhs is state["other"] and rhs is state["self"]) else None
         if order is None:
+            if state.get("plain_other"):
+                return Bin("rewritten-operand", (name, repr(rhs if lhs is state["self"] else lhs)), strict, "self" if kwargs.get("out") is state["self"] else None)
             raise Unsupported("_binary_op called with operands other than (self, other)")
         extra = sorted(k for k in kwargs if k != "out")
         if extra:
@@ -753,6 +755,21 @@ def check_operator_table_fold(run, tree, table):
             continue
         run.analysed(fi)
         try:
+            # the operator must hand (self, other) to the one helper whatever `other` is: a python number, a numpy scalar (no private
+            # arithmetic on the operand, e.g. multiplying by 1.0/other instead of dividing: another rounding, overflow for tiny divisors)
+            plain_problems = []
+            for label, other in (("a python float", 2.5), ("a python int", 3), ("a numpy scalar", NpScalar("np.float32(2.5)"))):
+                state["self"], state["other"], state["plain_other"] = new_array(tree, hk, "S", "m"), other, True
+                try:
+                    r_ = ModelEval(tree, fi, {}, hk).invoke(fi, [state["self"], other], {}, None)
+                except Raised as e:
+                    plain_problems.append("with %s: raises %s" % (label, e))
+                    continue
+                if isinstance(r_, Bin) and r_.kind == "rewritten-operand":
+                    plain_problems.append("with %s the helper receives %s instead of the operand (np.%s)" % (label, r_.data[1], r_.data[0]))
+                elif isinstance(r_, Bin) and names[0] not in TRUTH and (r_.kind != "arith" or r_.data != (ARITH_NAMES[names[0]], "SO")):
+                    plain_problems.append("with %s: computes %s" % (label, r_.data))
+            state["plain_other"] = False
             state["self"] = new_array(tree, hk, "S", "m")
             state["other"] = new_array(tree, hk, "O", "cm")
             ev = ModelEval(tree, fi, {}, hk)
@@ -761,7 +778,7 @@ def check_operator_table_fold(run, tree, table):
             except Raised as e:
                 run.violated(construct, fi.where(), "raises %s" % e, "a %s b" % dunder)
                 continue
-            problems = []
+            problems = list(plain_problems)
             if not isinstance(res, Bin):
                 run.unresolved(construct, fi.where(), "the operator does not resolve to _binary_op: returns %r" % (res,))
                 continue
